@@ -54,6 +54,7 @@ func TestVfC01Listeners(t *testing.T) {
 		DomainSets: []DomainSet{{Tag: "re", Files: []string{"$DIR/re.txt"}}},
 		Rules:      []Rule{{Domain: "re", Reject: 3}, {Forward: "up"}},
 		Log:        &LogCfg{Queries: true},
+		ECS:        &ECSCfg{Enabled: true}, // the client's OPT (and its option list) is looked at
 		Extra:      map[string]any{"metrics": map[string]any{"addr": metricsAddr}}}
 	const c01Idle = 2 // seconds; the stream listeners must drop a client that stalls in the middle of a frame after this long
 	for i := range cfg.Servers {
